@@ -26,6 +26,9 @@ type Case struct {
 	Wants  []int   `json:"wants"`   // commit index, or -1-k for an unknown hash
 	Rounds [][]int `json:"rounds"`  // haves per round (same encoding)
 	DoneAt int     `json:"done_at"` // index of the round sent with done=true, -1 never
+	// TablesFirst: the sender asks for TablesToSend before CommitsToSend (both orders are legal;
+	// the answers must not depend on it)
+	TablesFirst bool `json:"tables_first,omitempty"`
 	Depth  int     `json:"depth"`
 }
 
@@ -69,6 +72,7 @@ func genCase(t *rapid.T, maxNodes int) Case {
 		c.Rounds = append(c.Rounds, hs)
 	}
 	c.DoneAt = rapid.IntRange(-1, nr-1).Draw(t, "doneAt")
+	c.TablesFirst = rapid.Bool().Draw(t, "tablesFirst")
 	return c
 }
 
@@ -226,13 +230,26 @@ func run(c Case) (o evid.Outcome, err error) {
 			break
 		}
 	}
-	commits, err := finder.CommitsToSend()
-	if err != nil {
-		return o, fmt.Errorf("CommitsToSend: %v", err)
-	}
-	tablesToSend, err := finder.TablesToSend()
-	if err != nil {
-		return o, fmt.Errorf("TablesToSend: %v", err)
+	var commits []*objects.Commit
+	var tablesToSend map[string]struct{}
+	if c.TablesFirst {
+		tablesToSend, err = finder.TablesToSend()
+		if err != nil {
+			return o, fmt.Errorf("TablesToSend: %v", err)
+		}
+		commits, err = finder.CommitsToSend()
+		if err != nil {
+			return o, fmt.Errorf("CommitsToSend: %v", err)
+		}
+	} else {
+		commits, err = finder.CommitsToSend()
+		if err != nil {
+			return o, fmt.Errorf("CommitsToSend: %v", err)
+		}
+		tablesToSend, err = finder.TablesToSend()
+		if err != nil {
+			return o, fmt.Errorf("TablesToSend: %v", err)
+		}
 	}
 	commons := finder.CommonCommmits()
 	gets := db.Gets - getsBefore
